@@ -187,6 +187,15 @@ def verify_unit(name, root=None, canaries=True, keep=True, isolate_retry=True):
         rc, js, diags, err, wall, cmd = run_verus(gen, work, extra)
         res.cmd = cmd
         _classify(res, text, meta, js, diags, err, rc)
+        if any(x.startswith("solver resource limit") for x in res.undecided) and not res.failures:
+            # DESIGN 2.1 step 4: a solver limit is retried once with a larger rlimit before the run is undecided
+            big = 4 * (unit.rlimit or 10)
+            rc, js, diags, err, wall, cmd = run_verus(gen, work, ["--rlimit", str(big)], timeout=1800)
+            res2 = UnitResult(unit)
+            res2.cmd = cmd + "   (retry after rlimit)"
+            _classify(res2, text, meta, js, diags, err, rc)
+            res2.meta, res2.functions, res2.trusted_scan, res2.gen_path = res.meta, res.functions, res.trusted_scan, res.gen_path
+            res = res2
         # instability guard: a verification failure is only reported if it survives a re-run with a larger rlimit
         if res.failures and isolate_retry:
             rc2, js2, diags2, err2, _, _ = run_verus(gen, work, ["--rlimit", str(4 * (unit.rlimit or 10))])
